@@ -316,17 +316,73 @@ theorem prepEci_ok {s : S} {r : PrepReq} {b b' : BSC} {e : Option Item}
     simp at hve
     exact ⟨rfl, rfl, rfl, by simp, id, Or.inl ⟨hve, rfl⟩⟩
 
+theorem prepEci_lastCommit {s : S} {r : PrepReq} {b b' : BSC} {e : Option Item}
+    (h : prepEci p s r b = .ok (e, b')) (he : e.isSome = true) : r.lastCommit.isSome = true := by
+  unfold prepEci at h
+  split at h
+  · split at h
+    · simp at h
+    · rename_i hlc; simp [hlc]
+  · simp at h; obtain ⟨rfl, _⟩ := h; simp at he
+
+/-- the shape of the items `prepare_proposal` injects after the two commitments: an optional
+upgrade-change-hashes item, then the extended commit info iff vote extensions are enabled -/
+def InjShape (s : S) (r : PrepReq) (inj : List Item) : Prop :=
+  ∃ (up : List Item) (e : Option Item), inj = up ++ e.toList ∧
+    (up = [] ∨ ∃ ub ul, up = [Item.upgrade ub ul]) ∧
+    ((p.veEnabled s r.height = false ∧ e = none) ∨
+     (p.veEnabled s r.height = true ∧ ∃ bid len wf, e = some (.eci bid len wf))) ∧
+    (e.isSome = true → r.lastCommit.isSome = true)
+
+theorem prepInjected_ok {s : S} {r : PrepReq} {b b' : BSC} {inj : List Item}
+    (h : prepInjected p s r b = .ok (inj, b')) :
+    b'.maxComet = b.maxComet ∧ b'.curSeq = b.curSeq ∧ b'.maxSeq = b.maxSeq ∧
+    b'.curComet = b.curComet + (inj.map Item.len).sum ∧
+    (b.curComet ≤ b.maxComet → b'.curComet ≤ b'.maxComet) ∧ InjShape p s r inj := by
+  have eshape : ∀ {bm : BSC} {e : Option Item}, prepEci p s r bm = .ok (e, b') →
+      ((p.veEnabled s r.height = false ∧ e = none) ∨
+       (p.veEnabled s r.height = true ∧ ∃ bid len wf, e = some (.eci bid len wf))) := by
+    intro bm e he
+    obtain ⟨_, _, _, _, _, hc⟩ := prepEci_ok p he
+    rcases hc with h1 | ⟨h1, h2⟩ | ⟨h1, h2, _⟩
+    · exact Or.inl h1
+    · exact Or.inr ⟨h1, _, _, _, h2⟩
+    · exact Or.inr ⟨h1, _, _, _, h2⟩
+  unfold prepInjected at h
+  split at h
+  · split at h
+    · simp at h
+    · rename_i e b1 he
+      simp at h
+      obtain ⟨rfl, rfl⟩ := h
+      obtain ⟨e1, e2, e3, e4, e5, _⟩ := prepEci_ok p he
+      exact ⟨e1, e2, e3, e4, e5, [], e, by simp, Or.inl rfl, eshape he, prepEci_lastCommit p he⟩
+  · rename_i ub ul hup
+    split at h
+    · simp at h
+    · rename_i bm hbm
+      split at h
+      · simp at h
+      · rename_i e b1 he
+        simp at h
+        obtain ⟨rfl, rfl⟩ := h
+        obtain ⟨c1, c2, c3, c4, c5⟩ := cometAdd_ok hbm
+        obtain ⟨e1, e2, e3, e4, e5, _⟩ := prepEci_ok p he
+        refine ⟨e1.trans c2, e2.trans c3, e3.trans c4, ?_, fun _ => e5 c5, [Item.upgrade ub ul], e, by simp,
+          Or.inr ⟨ub, ul, rfl⟩, eshape he, prepEci_lastCommit p he⟩
+        rw [e4, c1]; simp [Item.len]; omega
+
 /-- Everything a successful `prepare_proposal` guarantees, in one statement. -/
 theorem stepPrepare_spec {a a' : AppState S} {r : PrepReq} {items : List Item}
     (h : stepPrepare p a r = (a', .prepared items)) :
-    ∃ (s1 : S) (eci : Option Item) (added : List Executed) (bsc0 bsc1 : BSC) (st : LoopSt S),
+    ∃ (s1 : S) (inj : List Item) (added : List Executed) (bsc0 bsc1 : BSC) (st : LoopSt S),
       p.pre a.committed (r.asBlock []) = .ok s1 ∧
       BSC.new r.maxTxBytes = .ok bsc0 ∧
-      prepEci p s1 r bsc0 = .ok (eci, bsc1) ∧
+      prepInjected p s1 r bsc0 = .ok (inj, bsc1) ∧
       prepLoop p (LoopSt.init s1 bsc1) r.queue = .ok st ∧
       Ext p (LoopSt.init s1 bsc1) st added ∧
       (added.map (·.1)).Sublist r.queue ∧
-      items = proposalItems (p.roots st.s (added.map (·.1))).1 (p.roots st.s (added.map (·.1))).2 eci added ∧
+      items = proposalItems (p.roots st.s (added.map (·.1))).1 (p.roots st.s (added.map (·.1))).2 inj added ∧
       a'.work = st.s ∧ a'.executedTxs = some added ∧ a'.exec = .prepared (r.fp items) ∧
       a'.committed = a.committed ∧ a'.postResult = none ∧ a'.writeBatch = a.writeBatch := by
   unfold stepPrepare at h
@@ -339,7 +395,7 @@ theorem stepPrepare_spec {a a' : AppState S} {r : PrepReq} {items : List Item}
     · rename_i bsc0 hb
       split at h
       · simp at h
-      · rename_i eci bsc1 he
+      · rename_i inj bsc1 he
         split at h
         · simp at h
         · rename_i st hl
@@ -348,14 +404,14 @@ theorem stepPrepare_spec {a a' : AppState S} {r : PrepReq} {items : List Item}
           simp only [ExecState.setPrepared] at h
           simp at h
           obtain ⟨rfl, rfl⟩ := h
-          refine ⟨s1, eci, added, bsc0, bsc1, st, hpre, hb, he, hl, hext, hsub, ?_, rfl, ?_, ?_, rfl, rfl, rfl⟩
+          refine ⟨s1, inj, added, bsc0, bsc1, st, hpre, hb, he, hl, hext, hsub, ?_, rfl, ?_, ?_, rfl, rfl, rfl⟩
           · simp [hd]
           · simp [hd]
           · simp [hd]
 
-theorem itemsLen_proposal (r1 r2 : Nat) (eci : Option Item) (done : List Executed) :
-    ((proposalItems r1 r2 eci done).map Item.len).sum
-      = commitmentsSize + (eci.toList.map Item.len).sum + lenSum done := by
+theorem itemsLen_proposal (r1 r2 : Nat) (inj : List Item) (done : List Executed) :
+    ((proposalItems r1 r2 inj done).map Item.len).sum
+      = commitmentsSize + (inj.map Item.len).sum + lenSum done := by
   simp [proposalItems, Item.len, commitmentsSize, lenSum, List.map_map, Function.comp_def]
   omega
 
@@ -365,9 +421,9 @@ theorem prepare_within_limits {a a' : AppState S} {r : PrepReq} {items : List It
     (h : stepPrepare p a r = (a', .prepared items)) :
     0 ≤ r.maxTxBytes ∧ ((items.map Item.len).sum : Int) ≤ r.maxTxBytes ∧
     ∃ added, a'.executedTxs = some added ∧ seqSum added ≤ maxSeqBytes := by
-  obtain ⟨s1, eci, added, bsc0, bsc1, st, _, hb, he, _, hext, _, hitems, _, hex, _⟩ := stepPrepare_spec p h
+  obtain ⟨s1, inj, added, bsc0, bsc1, st, _, hb, he, _, hext, _, hitems, _, hex, _⟩ := stepPrepare_spec p h
   obtain ⟨hm0, hmax, hcur, hseq0, hms, hfit0⟩ := BSC_new_ok hb
-  obtain ⟨e1, e2, e3, e4, e5, _⟩ := prepEci_ok p he
+  obtain ⟨e1, e2, e3, e4, e5, _⟩ := prepInjected_ok p he
   have hc := hext.comet
   have hs := hext.seq
   have hfc := hext.fitC (by simpa [LoopSt.init] using e5 hfit0)
@@ -377,7 +433,7 @@ theorem prepare_within_limits {a a' : AppState S} {r : PrepReq} {items : List It
   simp [LoopSt.init] at hc hs hmc hmsq
   refine ⟨hm0, ?_, added, hex, ?_⟩
   · rw [hitems, itemsLen_proposal]
-    have : commitmentsSize + (eci.toList.map Item.len).sum + lenSum added ≤ r.maxTxBytes.toNat := by
+    have : commitmentsSize + (inj.map Item.len).sum + lenSum added ≤ r.maxTxBytes.toNat := by
       rw [hc, e4, hcur, hmc, e1, hmax] at hfc; omega
     omega
   · rw [hs, e2, hseq0, hmsq, e3, hms] at hfs; omega
@@ -548,7 +604,7 @@ theorem parseItems_shape {veOn : Bool} {items : List Item} {pd : Parsed}
     (h : parseItems veOn items = .ok pd) :
     ∃ (up : List Item) (ec : List Item),
       items = [Item.root1 pd.r1, Item.root2 pd.r2] ++ up ++ ec ++ pd.txs ∧
-      (up = [] ∨ ∃ u, up = [Item.upgrade u]) ∧
+      (up = [] ∨ ∃ u l, up = [Item.upgrade u l]) ∧
       (veOn = true → ∃ bid len, ec = [Item.eci bid len true] ∧ pd.eci = some (bid, len)) ∧
       (veOn = false → ec = [] ∧ pd.eci = none) := by
   unfold parseItems at h
@@ -557,7 +613,7 @@ theorem parseItems_shape {veOn : Bool} {items : List Item} {pd : Parsed}
     split at h
     · rename_i up rest' hm
       split at hm
-      · rename_i u r'
+      · rename_i u ul r'
         simp at hm
         obtain ⟨rfl, rfl⟩ := hm
         split at h
@@ -567,13 +623,13 @@ theorem parseItems_shape {veOn : Bool} {items : List Item} {pd : Parsed}
             split at h
             · rename_i hwf
               simp at h; subst h
-              exact ⟨[Item.upgrade u], [Item.eci bid len true], by simp [hwf], Or.inr ⟨u, rfl⟩,
+              exact ⟨[Item.upgrade u ul], [Item.eci bid len true], by simp [hwf], Or.inr ⟨u, ul, rfl⟩,
                 fun _ => ⟨bid, len, rfl, rfl⟩, fun hf => by simp [hve] at hf⟩
             · simp at h
           · simp at h
         · rename_i hve
           simp at h; subst h
-          exact ⟨[Item.upgrade u], [], by simp, Or.inr ⟨u, rfl⟩, fun ht => by simp [ht] at hve,
+          exact ⟨[Item.upgrade u ul], [], by simp, Or.inr ⟨u, ul, rfl⟩, fun ht => by simp [ht] at hve,
             fun _ => ⟨rfl, rfl⟩⟩
       · rename_i r'
         simp at hm
@@ -741,36 +797,20 @@ theorem processExec_complete {σ s1 : S} {b : Block} {pd : Parsed} {txs : List T
           subst this
           simp [hr1, hr2]
 
-theorem prepEci_lastCommit {s : S} {r : PrepReq} {b b' : BSC} {e : Option Item}
-    (h : prepEci p s r b = .ok (e, b')) (he : e.isSome = true) : r.lastCommit.isSome = true := by
-  unfold prepEci at h
-  split at h
-  · split at h
-    · simp at h
-    · rename_i hlc; simp [hlc]
-  · simp at h; obtain ⟨rfl, _⟩ := h; simp at he
+/-- the proposal parses whenever its extended commit info (if any) is the well-formed one -/
+theorem parseItems_proposal {veOn : Bool} (r1 r2 : Nat) {up : List Item} {e : Option Item} (added : List Executed)
+    (hup : up = [] ∨ ∃ ub ul, up = [Item.upgrade ub ul])
+    (he : (veOn = false ∧ e = none) ∨ (veOn = true ∧ ∃ bid len, e = some (.eci bid len true))) :
+    ∃ pd, parseItems veOn (proposalItems r1 r2 (up ++ e.toList) added) = .ok pd ∧ pd.r1 = r1 ∧ pd.r2 = r2 ∧
+      pd.txs = added.map (fun e => Item.tx e.1) ∧ (pd.eci.isSome = true → e.isSome = true) := by
+  rcases hup with rfl | ⟨ub, ul, rfl⟩ <;> rcases he with ⟨rfl, rfl⟩ | ⟨rfl, bid, len, rfl⟩ <;>
+    cases added <;> simp [proposalItems, parseItems]
 
-/-- if the full extended commit info fits, it is the one that is proposed -/
-theorem prepEci_full {s : S} {r : PrepReq} {b b' b1 : BSC} {e : Option Item}
-    (h : prepEci p s r b = .ok (e, b')) (hve : p.veEnabled s r.height = true)
-    (hfit : b.cometAdd (p.eciFull s r).2 = .ok b1) :
-    e = some (.eci (p.eciFull s r).1 (p.eciFull s r).2 true) := by
-  unfold prepEci at h
-  simp [hve] at h
-  split at h
-  · simp at h
-  · simp [hfit] at h; exact h.1.symm
-
-theorem parseItems_proposal_noeci (r1 r2 : Nat) (added : List Executed) :
-    parseItems false (proposalItems r1 r2 none added)
-      = .ok { r1 := r1, r2 := r2, upgrade := none, eci := none, txs := added.map (fun e => Item.tx e.1) } := by
-  cases added <;> simp [proposalItems, parseItems]
-
-theorem parseItems_proposal_eci (r1 r2 bid len : Nat) (added : List Executed) :
-    parseItems true (proposalItems r1 r2 (some (.eci bid len true)) added)
-      = .ok { r1 := r1, r2 := r2, upgrade := none, eci := some (bid, len),
-              txs := added.map (fun e => Item.tx e.1) } := by
-  simp [proposalItems, parseItems]
+/-- … and does not parse if it carries the empty fallback -/
+theorem parseItems_proposal_badeci (r1 r2 bid len : Nat) {up : List Item} (added : List Executed)
+    (hup : up = [] ∨ ∃ ub ul, up = [Item.upgrade ub ul]) :
+    ∃ e, parseItems true (proposalItems r1 r2 (up ++ (some (Item.eci bid len false)).toList) added) = .error e := by
+  rcases hup with rfl | ⟨ub, ul, rfl⟩ <;> simp [proposalItems, parseItems]
 
 /-- the block CometBFT builds from a `PrepareProposal` response -/
 def PrepReq.proposed (r : PrepReq) (items : List Item) (hash : Nat) : Block :=
@@ -790,9 +830,8 @@ theorem prepare_then_process_accepts
     (hi64 : r.maxTxBytes ≤ 2 ^ 63 - 1)
     -- vote-extension enablement at this height does not depend on uncommitted writes
     (hve : ∀ s s', p.veEnabled s r.height = p.veEnabled s' r.height)
-    -- proviso (F12): the extended commit info fits into max_tx_bytes
-    (hfit : ∀ s1 bsc0, p.pre σ (r.asBlock []) = .ok s1 → BSC.new r.maxTxBytes = .ok bsc0 →
-        p.veEnabled s1 r.height = true → ∃ bsc1, bsc0.cometAdd (p.eciFull s1 r).2 = .ok bsc1)
+    -- proviso (F12): the extended commit info fitted into max_tx_bytes (no empty fallback item)
+    (hfit : ∀ bid len wf, Item.eci bid len wf ∈ items → wf = true)
     -- pre_execute_transactions depends on the block data only, not on the items / hash
     (hpre : p.pre σ (r.proposed items hash) = p.pre σ (r.asBlock []))
     -- the proposer's own extended commit info validates (C15)
@@ -802,29 +841,28 @@ theorem prepare_then_process_accepts
     -- post_execute_transactions does not fail on the executed proposal
     (hpost : ∀ ex, a1.executedTxs = some ex → ∃ s'' aux, p.post a1.work (r.proposed items hash) ex = .ok (s'', aux)) :
     (stepProcess p v (r.proposed items hash)).2 = .accept := by
-  obtain ⟨s1, eci, added, bsc0, bsc1, st, hpre1, hb, he, hl, hext, hsub, hitems, hwork, hex, hexec, _, _, _⟩ :=
+  obtain ⟨s1, inj, added, bsc0, bsc1, st, hpre1, hb, he, hl, hext, hsub, hitems, hwork, hex, hexec, _, _, _⟩ :=
     stepPrepare_spec p hprep
   rw [hσ] at hpre1
   obtain ⟨hm0, hmax, hcur, hseq0, hms, hfit0⟩ := BSC_new_ok hb
-  obtain ⟨e1, e2, e3, e4, e5, ecase⟩ := prepEci_ok p he
+  obtain ⟨e1, e2, e3, e4, e5, up, eci, hinj, hup, ecase, hlc⟩ := prepInjected_ok p he
   -- the parse
   have hparse : ∃ pd, parseItems (p.veEnabled v.work (r.proposed items hash).height) (r.proposed items hash).items = .ok pd ∧
       pd.r1 = (p.roots st.s (added.map (·.1))).1 ∧ pd.r2 = (p.roots st.s (added.map (·.1))).2 ∧
       pd.txs = added.map (fun e => Item.tx e.1) ∧ (pd.eci.isSome = true → eci.isSome = true) := by
     have hv : p.veEnabled v.work r.height = p.veEnabled s1 r.height := hve _ _
     show ∃ pd, parseItems (p.veEnabled v.work r.height) items = .ok pd ∧ _
-    rw [hv, hitems]
-    cases hen : p.veEnabled s1 r.height with
-    | false =>
-      rcases ecase with ⟨_, rfl⟩ | ⟨h1, _⟩ | ⟨h1, _⟩
-      · exact ⟨_, parseItems_proposal_noeci _ _ _, rfl, rfl, rfl, by simp⟩
-      · simp [hen] at h1
-      · simp [hen] at h1
-    | true =>
-      obtain ⟨b1, hb1⟩ := hfit s1 bsc0 hpre1 hb hen
-      have := prepEci_full p he hen hb1
-      subst this
-      exact ⟨_, parseItems_proposal_eci _ _ _ _ _, rfl, rfl, rfl, by simp⟩
+    rw [hv]
+    have hcase : (p.veEnabled s1 r.height = false ∧ eci = none) ∨
+        (p.veEnabled s1 r.height = true ∧ ∃ bid len, eci = some (.eci bid len true)) := by
+      rcases ecase with h1 | ⟨h1, bid, len, wf, h2⟩
+      · exact Or.inl h1
+      · refine Or.inr ⟨h1, bid, len, ?_⟩
+        have : wf = true := hfit bid len wf (by
+          rw [hitems, hinj, h2]; simp [proposalItems])
+        rw [h2, this]
+    rw [hitems, hinj]
+    exact parseItems_proposal _ _ added hup hcase
   obtain ⟨pd, hpd, hr1, hr2, htxs, heci⟩ := hparse
   rw [stepProcess_noskip p hck, hpd]
   simp only
@@ -860,7 +898,7 @@ theorem prepare_then_process_accepts
   have hx : processExec p (AppState.init σ) (r.proposed items hash) pd
       = ({ (AppState.init σ) with work := st.s }, .ok added) := by
     have hlc : pd.eci.isSome = true → (r.proposed items hash).lastCommit.isSome = true := by
-      intro h; exact prepEci_lastCommit p he (heci h)
+      intro h; exact hlc (heci h)
     have := processExec_complete p (σ := σ) (b := r.proposed items hash) (pd := pd)
       (fun h => ⟨hlc h, hvalid⟩) (hpre.trans hpre1) hconstr hpl (by rw [hst's]; exact hr1) (by rw [hst's]; exact hr2)
     rw [this, hst's, hst'd]
@@ -1345,10 +1383,6 @@ theorem path_independence {σ : S} {b : Block} {h : Nat} (hh : b.hash = some h)
       refine ⟨heq, hsk.2.1, ?_⟩
       rw [hsk.2.2, hcanon.2.2, heq]
 
-theorem parseItems_proposal_badeci (r1 r2 bid len : Nat) (added : List Executed) :
-    ∃ e, parseItems true (proposalItems r1 r2 (some (.eci bid len false)) added) = .error e := by
-  simp [proposalItems, parseItems]
-
 /-- **C06 ⇒ C05 link**: `PrepareCoherent` holds for a block whose transactions are all
 constructible at block start, when `pre_execute_transactions` depends on the block data only and
 vote-extension enablement is stable. (F11 blocks violate the constructibility premise.) -/
@@ -1358,7 +1392,7 @@ theorem prepareCoherent_of_constructible {σ : S} {b : Block}
     (hcons : ∀ s1, p.pre σ b = .ok s1 → ∀ t, Item.tx t ∈ b.items → p.constructible s1 t = true) :
     PrepareCoherent p σ b := by
   intro pd r items a0 ex hparse hsp hfp hex
-  obtain ⟨s1, eci, added, bsc0, bsc1, st, hpre1, hb, he, hl, hext, hsub, hitems, hwork, hexa, _, _, _, _⟩ :=
+  obtain ⟨s1, inj, added, bsc0, bsc1, st, hpre1, hb, he, hl, hext, hsub, hitems, hwork, hexa, _, _, _, _⟩ :=
     stepPrepare_spec p hsp
   simp only [AppState.init] at hpre1
   have hbi : b.items = items := by
@@ -1367,21 +1401,27 @@ theorem prepareCoherent_of_constructible {σ : S} {b : Block}
     have := congrArg CachedProposal.height hfp; simpa [PrepReq.fp, Block.fp] using this.symm
   have hexeq : ex = added := by rw [hexa] at hex; simpa using hex.symm
   subst hexeq
-  obtain ⟨_, _, _, _, _, ecase⟩ := prepEci_ok p he
+  obtain ⟨_, _, _, _, _, up, eci, hinj, hup, ecase, _⟩ := prepInjected_ok p he
   -- the parse of the proposal
   have hpdtx : pd.txs = ex.map (fun e => Item.tx e.1) := by
-    rw [hbi, hitems, hbh] at hparse
+    rw [hbi, hitems, hbh, hinj] at hparse
     have hv : p.veEnabled σ r.height = p.veEnabled s1 r.height := by
       have := hve σ s1; rwa [hbh] at this
     rw [hv] at hparse
-    rcases ecase with ⟨h1, rfl⟩ | ⟨h1, rfl⟩ | ⟨h1, rfl, _⟩
-    · rw [h1, parseItems_proposal_noeci] at hparse
-      simp at hparse; rw [← hparse]
-    · rw [h1, parseItems_proposal_eci] at hparse
-      simp at hparse; rw [← hparse]
-    · rw [h1] at hparse
-      obtain ⟨e, hbad⟩ := parseItems_proposal_badeci (p.roots st.s (ex.map (·.1))).1 (p.roots st.s (ex.map (·.1))).2 p.eciEmpty.1 p.eciEmpty.2 ex
-      rw [hbad] at hparse; simp at hparse
+    rcases ecase with ⟨h1, rfl⟩ | ⟨h1, bid, len, wf, rfl⟩
+    · obtain ⟨pd', hpd', _, _, htx', _⟩ := parseItems_proposal (veOn := p.veEnabled s1 r.height)
+        (p.roots st.s (ex.map (·.1))).1 (p.roots st.s (ex.map (·.1))).2 (up := up) (e := none) ex hup (Or.inl ⟨h1, rfl⟩)
+      rw [hpd'] at hparse; injection hparse with hparse; rw [← hparse]; exact htx'
+    · cases wf with
+      | true =>
+        obtain ⟨pd', hpd', _, _, htx', _⟩ := parseItems_proposal (veOn := p.veEnabled s1 r.height)
+          (p.roots st.s (ex.map (·.1))).1 (p.roots st.s (ex.map (·.1))).2 (up := up) (e := some (.eci bid len true)) ex hup
+          (Or.inr ⟨h1, bid, len, rfl⟩)
+        rw [hpd'] at hparse; injection hparse with hparse; rw [← hparse]; exact htx'
+      | false =>
+        rw [h1] at hparse
+        obtain ⟨e, hbad⟩ := parseItems_proposal_badeci (p.roots st.s (ex.map (·.1))).1 (p.roots st.s (ex.map (·.1))).2 bid len ex hup
+        rw [hbad] at hparse; simp at hparse
   have hpreb : p.pre σ b = .ok s1 := (hpre r items hfp).trans hpre1
   have hrun : Runs p s1 ex st.s := by simpa [LoopSt.init] using hext.runs
   have hconstr : constructAll p s1 pd.txs = .ok (ex.map (·.1)) := by
@@ -1508,31 +1548,28 @@ theorem prepare_then_own_process_accepts
     {a a1 : AppState S} {r : PrepReq} {items : List Item} {σ : S} {hash : Nat}
     (hprep : stepPrepare p a r = (a1, .prepared items)) (hσ : a.committed = σ)
     (hve : ∀ s s', p.veEnabled s r.height = p.veEnabled s' r.height)
-    (hfit : ∀ s1 bsc0, p.pre σ (r.asBlock []) = .ok s1 → BSC.new r.maxTxBytes = .ok bsc0 →
-        p.veEnabled s1 r.height = true → ∃ bsc1, bsc0.cometAdd (p.eciFull s1 r).2 = .ok bsc1)
+    (hfit : ∀ bid len wf, Item.eci bid len wf ∈ items → wf = true)
     (hpost : ∀ ex, a1.executedTxs = some ex → ∃ s'' aux, p.post a1.work (r.proposed items hash) ex = .ok (s'', aux)) :
     (stepProcess p a1 (r.proposed items hash)).2 = .accept := by
-  obtain ⟨s1, eci, added, bsc0, bsc1, st, hpre1, hb, he, hl, hext, hsub, hitems, hwork, hex, hexec, _, hpr, _⟩ :=
+  obtain ⟨s1, inj, added, bsc0, bsc1, st, hpre1, hb, he, hl, hext, hsub, hitems, hwork, hex, hexec, _, hpr, _⟩ :=
     stepPrepare_spec p hprep
-  rw [hσ] at hpre1
-  obtain ⟨_, _, _, _, _, ecase⟩ := prepEci_ok p he
+  obtain ⟨_, _, _, _, _, up, eci, hinj, hup, ecase, _⟩ := prepInjected_ok p he
   have hck : a1.exec.checkPrepared (r.proposed items hash).fp = (.preparedValid (r.fp items), true) := by
     rw [hexec, proposed_fp]; simp [ExecState.checkPrepared]
   have hparse : ∃ pd, parseItems (p.veEnabled a1.work (r.proposed items hash).height) (r.proposed items hash).items = .ok pd := by
     have hv : p.veEnabled a1.work r.height = p.veEnabled s1 r.height := hve _ _
     show ∃ pd, parseItems (p.veEnabled a1.work r.height) items = .ok pd
-    rw [hv, hitems]
-    cases hen : p.veEnabled s1 r.height with
-    | false =>
-      rcases ecase with ⟨_, rfl⟩ | ⟨h1, _⟩ | ⟨h1, _⟩
-      · exact ⟨_, parseItems_proposal_noeci _ _ _⟩
-      · simp [hen] at h1
-      · simp [hen] at h1
-    | true =>
-      obtain ⟨b1, hb1⟩ := hfit s1 bsc0 hpre1 hb hen
-      have := prepEci_full p he hen hb1
-      subst this
-      exact ⟨_, parseItems_proposal_eci _ _ _ _ _⟩
+    rw [hv]
+    have hcase : (p.veEnabled s1 r.height = false ∧ eci = none) ∨
+        (p.veEnabled s1 r.height = true ∧ ∃ bid len, eci = some (.eci bid len true)) := by
+      rcases ecase with h1 | ⟨h1, bid, len, wf, h2⟩
+      · exact Or.inl h1
+      · refine Or.inr ⟨h1, bid, len, ?_⟩
+        have : wf = true := hfit bid len wf (by rw [hitems, hinj, h2]; simp [proposalItems])
+        rw [h2, this]
+    rw [hitems, hinj]
+    obtain ⟨pd, hpd, _⟩ := parseItems_proposal (p.roots st.s (added.map (·.1))).1 (p.roots st.s (added.map (·.1))).2 added hup hcase
+    exact ⟨pd, hpd⟩
   obtain ⟨pd, hpd⟩ := hparse
   rw [stepProcess_skip p hck, hpd]
   simp only [hex]
